@@ -1833,6 +1833,8 @@ pub fn replay(ctx: &mut Ctx, case: &serde_json::Value) {
 }
 
 pub fn run(ctx: &mut Ctx) {
+    // functions translated from the Rust source (Gen/PureFns): translation vs real code
+    crate::purefns::check_tinyset(ctx, if ctx.thorough() { 4000 } else { 300 });
     std::panic::set_hook(Box::new(|info| {
         if let Ok(mut s) = LAST_PANIC.lock() {
             *s = info.to_string().chars().take(300).collect();
@@ -1867,7 +1869,7 @@ pub fn run(ctx: &mut Ctx) {
         eprintln!("c13: corpus done {:?}", t_start.elapsed());
     }
     // (a) direct combinators
-    let n_direct = ctx.budget(3000, 90_000);
+    let n_direct = ctx.budget(3000, 50_000);
     for i in 0..n_direct {
         let mut rng = ctx.rng.fork();
         let max_doc = *rng.pick(&[300u32, 5000, 9000, 13_000, 20_000]);
@@ -1896,7 +1898,7 @@ pub fn run(ctx: &mut Ctx) {
     // (a') scoring unions (SumCombiner / DisjunctionMaxCombiner with tie breaker) whose children span
     // several windows: bucket-skipping in-horizon seeks, far seeks, advances across window ends, with
     // score() at every position compared with the brute-force combination of the children's scores
-    let n_union = ctx.budget(250, 8_000);
+    let n_union = ctx.budget(250, 5_000);
     for _ in 0..n_union {
         let mut rng = ctx.rng.fork();
         let max_doc = *rng.pick(&[9500u32, 13_000, 20_000]);
@@ -1945,7 +1947,7 @@ pub fn run(ctx: &mut Ctx) {
     // (a'') intersections of 4-6 dense clauses (every clause filters), also nested, on the dense
     // count path (segment_num_docs = 0) and the sparse one: count_including_deleted at the start, after
     // advances and after a seek must equal the number of remaining common documents
-    let n_inter = ctx.budget(300, 8_000);
+    let n_inter = ctx.budget(300, 5_000);
     for _ in 0..n_inter {
         let mut rng = ctx.rng.fork();
         let max_doc = *rng.pick(&[200u32, 1500, 3000, 6000]);
@@ -2003,8 +2005,8 @@ pub fn run(ctx: &mut Ctx) {
         check_direct(ctx, &t, &prog, "inter-count");
     }
     // (b) real queries
-    let n_index = ctx.budget(3, 12);
-    let per_index = ctx.budget(250, 2500);
+    let n_index = ctx.budget(3, 10);
+    let per_index = ctx.budget(250, 1500);
     for k in 0..n_index {
         let mut rng = ctx.rng.fork();
         let n = [9000u32, 300, 13_000, 4200, 1, 130][k as usize % 6];
